@@ -61,7 +61,7 @@ def check_records(ctx, world):
 
 def run(ctx):
     world = H.World(ctx.rng)
-    n_hist = 160 if ctx.quick else 1200
+    n_hist = 900 if ctx.quick else 5000
     w = {"appa": 5, "appw": 4, "load": 3, "setcount": 3, "setcap": 1, "settiming": 3, "write": 1, "get": 0, "pickle": 2, "bad": 1}
     GT = [0]
     for i in range(n_hist):
